@@ -74,6 +74,7 @@ EvVerdict(t, j) ==
             IF ev.exc = "none" THEN RowsVerdict(CompareMode(q), RowSeq(q, W), ev.rows)   \* the fault did not fire
             ELSE IF ev.exc # ev.want THEN "exception.class"
             ELSE PrefixVerdict(CompareMode(q), RowSeq(q, W), ev.rows)
+       [] ev.op = "abandon" -> IF ev.exc # "none" THEN "exception" ELSE "ok"     \* k results taken, iterator closed
        [] ev.op = "the" ->
             LET o == TheOutcome(q, W)
             IN IF ev.exc # "none" THEN "exception"
